@@ -171,8 +171,7 @@ def gap_iter_exact(repo: Repo, L: Ledger, rule: str):
     yn = ys[0][1].value
     mult = [n for n in ast.walk(yn) if isinstance(n, ast.BinOp) and isinstance(n.op, ast.Mult)]
     if len(mult) != 1:
-        L.fail(rule, g.short, f"gap chunk '{norm(yn)}' is not <character> * <count>", g.loc())
-        return
+        raise AnalysisError(f"{g.short}: gap chunk '{norm(yn)[:60]}' is not written as <character> * <count>: form not understood")
     stt = State()
     stt.env = r.callee_env
     stt.heap = r.heap
